@@ -227,6 +227,10 @@ def rig_behaviours(r, thorough, codes):
         for hold in (0, 40, 450, 700):        # leak timeout 150 ms: never within 40 % of it
             out.append((f"hold{hold}_{code}", dict(kind="hold", code=code, hold_ms=hold),
                         dict(raw=code << 8, leaked=hold > RIG_LEAK_MS)))
+    # the descendant holding the pipes has left the test's process group (a daemon): still a leak iff past the timeout
+    for code, hold in ((0, 700), (0, 40), (5, 450)):
+        out.append((f"dhold{hold}_{code}", dict(kind="hold", code=code, hold_ms=hold, own_session=True),
+                    dict(raw=code << 8, leaked=hold > RIG_LEAK_MS)))
     # F2 on real processes: the descendant keeps writing while it holds the pipe
     out.append(("writer0", dict(kind="writer", code=0, period_ms=40, total_ms=800), dict(raw=0, leaked=True)))
     out.append(("writer7", dict(kind="writer", code=7, period_ms=40, total_ms=800), dict(raw=7 << 8, leaked=True)))
